@@ -45,6 +45,22 @@ pub struct Emitter {
     /// block strings may contain backslashes and line breaks as long as the raw text IS the denoted value
     /// (no `"""`, no trailing backslash/quote, no indented continuation line, no blank first/last line); default off
     pub block_rich: bool,
+    /// exact control of the ignored text between tokens (default `None` = the style decides). With a plan, gap
+    /// number g (0 = before the first token, `gaps` after `finish` = after the last token) gets exactly the planned
+    /// text (which then also serves as the token separator); every other gap gets the minimal separator. Each gap is
+    /// logged as (previous token, next token), "" standing for start / end of the text.
+    pub gap_plan: Option<GapPlan>,
+    pub gaps: usize,
+    pub gap_log: Vec<(String, String)>,
+    last_tok: String,
+}
+
+#[derive(Clone, Debug)]
+pub enum GapPlan {
+    /// only log the gaps
+    Nowhere,
+    At(usize, String),
+    Everywhere(String),
 }
 
 fn is_wordy(c: char) -> bool {
@@ -53,7 +69,7 @@ fn is_wordy(c: char) -> bool {
 
 impl Emitter {
     pub fn new(style: Style, rng: Rng) -> Emitter {
-        Emitter { out: String::new(), line: 0, col: 0, rng, style, last_wordy: false, fresh_line: true, indent: 0, features: vec![], extra_comments: vec![], block_values: false, block_rich: false }
+        Emitter { out: String::new(), line: 0, col: 0, rng, style, last_wordy: false, fresh_line: true, indent: 0, features: vec![], extra_comments: vec![], block_values: false, block_rich: false, gap_plan: None, gaps: 0, gap_log: vec![], last_tok: String::new() }
     }
     fn raw(&mut self, s: &str) {
         let mut chars = s.chars().peekable();
@@ -131,7 +147,9 @@ impl Emitter {
     pub fn tok(&mut self, t: &str) -> P {
         let first = t.chars().next().unwrap_or(' ');
         let need_sep = self.last_wordy && (is_wordy(first) || first == '"');
-        if self.style.trivia {
+        if self.gap_plan.is_some() {
+            self.planned_gap(t, need_sep);
+        } else if self.style.trivia {
             self.trivia(need_sep);
         } else {
             if self.fresh_line {
@@ -151,7 +169,7 @@ impl Emitter {
     /// a token glued to the previous one (no trivia in between), e.g. the name after `$` or `@`… in
     /// GraphQL `$ name` and `@ name` may in fact be separated by trivia, so this is used only for `...`.
     pub fn nl(&mut self) {
-        if !self.style.trivia {
+        if !self.style.trivia && self.gap_plan.is_none() {
             self.raw("\n");
             self.fresh_line = true;
             self.last_wordy = false;
@@ -162,11 +180,38 @@ impl Emitter {
         self.col += 1;
         self.feature("trivia:bom");
     }
+    /// the gap before token `next` ("" = end of text) under a `gap_plan`
+    fn planned_gap(&mut self, next: &str, need_sep: bool) {
+        let g = self.gaps;
+        self.gaps += 1;
+        let prev = std::mem::replace(&mut self.last_tok, next.to_string());
+        self.gap_log.push((prev, next.to_string()));
+        let planned = match &self.gap_plan {
+            Some(GapPlan::At(i, s)) if *i == g => Some(s.clone()),
+            Some(GapPlan::Everywhere(s)) => Some(s.clone()),
+            _ => None,
+        };
+        match planned {
+            Some(s) if !s.is_empty() => self.raw(&s),
+            _ => {
+                if need_sep {
+                    self.raw(" ");
+                }
+            }
+        }
+    }
     pub fn finish(mut self) -> (String, Vec<&'static str>) {
-        if self.style.trivia {
+        if self.gap_plan.is_some() {
+            self.planned_gap("", false);
+        } else if self.style.trivia {
             self.trivia(false);
         }
         (self.out, self.features)
+    }
+    /// `finish` + the gap log of a `gap_plan` rendering
+    pub fn finish_with_gaps(mut self) -> (String, Vec<(String, String)>) {
+        self.planned_gap("", false);
+        (self.out, self.gap_log)
     }
 }
 
@@ -384,6 +429,7 @@ pub fn r_execdef(e: &mut Emitter, d: &mut ExecDef) {
             e.raw(&s);
             e.last_wordy = false;
             e.fresh_line = true;
+            e.last_tok = String::from("#import-line");
         }
     }
     e.nl();
